@@ -56,7 +56,11 @@ impl<T: Types> PayloadCache<T> {
     pub(crate) fn insert(&mut self, key: T::LogId, value: T::LogPayload) {
         let payload_size = T::payload_size(&value) as usize;
 
-        self.cache.insert(key, value);
+        // A log id can be inserted again, e.g., after `update_state()` moved
+        // `last` back: the entry it replaces no longer counts.
+        if let Some(replaced) = self.cache.insert(key, value) {
+            self.size -= T::payload_size(&replaced) as usize;
+        }
         self.size += payload_size;
 
         self.try_evict();
